@@ -40,7 +40,7 @@ def stats(raw):
 
 
 e2check.run(dict(
-    prop='C01', model='sched', harness='e2/sched.cpp', bin='e2_sched', props=['C01'], translators=['stateword.py'],
+    prop='C01', model='schedco', harness='e2/sched.cpp', bin='e2_sched', props=['C01'], translators=['stateword.py'],
     runs=runs, extra_runs=extra_runs, nontrivial=nontrivial, stats=stats, par=3, timeout_s=900,
     rule='generated task programs (fan-out trees with yields, semaphore hand-shakes, boosted spin-waits, pika::thread and sender tasks, mixed priorities/stack sizes, 1-3 external submitter threads) on the live runtime for every scheduling policy and several worker counts, with PRNG timing perturbation at the instrumented sites; non-trivial = the run contains at least one suspension wake-up and one recycled thread object; distinct = distinct argv',
     assumptions=['body-entered-exactly-once is observed by per-task counters (monitor), the theorems cover the state-word/queue protocol',
